@@ -252,3 +252,44 @@ func atomicElection(e ast.Expr, fr *core.Frame) bool {
 	})
 	return found
 }
+
+// ordinal names a node by its rank among the nodes of the same syntactic kind in the enclosing
+// declared function (source order), so that constructs do not depend on line numbers.
+func (c *Ctx) ordinal(n ast.Node) string {
+	d := c.Prog.EnclosingDecl(n.Pos())
+	if d == nil {
+		return "#?"
+	}
+	k := 0
+	ast.Inspect(d.Decl, func(x ast.Node) bool {
+		if x == nil {
+			return true
+		}
+		if x.Pos() < n.Pos() && sameKind(x, n) {
+			k++
+		}
+		return true
+	})
+	return sprintf("#%d", k+1)
+}
+
+func sameKind(a, b ast.Node) bool {
+	switch a.(type) {
+	case *ast.SelectStmt:
+		_, ok := b.(*ast.SelectStmt)
+		return ok
+	case *ast.ForStmt:
+		_, ok := b.(*ast.ForStmt)
+		return ok
+	case *ast.ReturnStmt:
+		_, ok := b.(*ast.ReturnStmt)
+		return ok
+	case *ast.CallExpr:
+		_, ok := b.(*ast.CallExpr)
+		return ok
+	case *ast.UnaryExpr:
+		_, ok := b.(*ast.UnaryExpr)
+		return ok
+	}
+	return false
+}
